@@ -1,4 +1,5 @@
 """Generic rule helpers shared by the per-property rule tables."""
+import re
 from .facts import (Site, Origin, callee_matches, callee_name, norm, path_matches,
                     guard_edges, origin_is_call, PASS_LABELS, FAIL_LABELS)
 
@@ -425,7 +426,126 @@ class G:
         self.pred = pred
         self.opred = opred
 
+    # -- one level of helper inlining -------------------------------------------------
+    # `if key_matches(cert, tal) {..}` with `fn key_matches(..) -> bool { cert.key() == tal.key() }` decides the same
+    # thing as the inlined comparison. A switch on the result of a crate-local helper is accepted as this guard when
+    # every path of the helper that produces a given result class (true/false, Ok/Err, Some/None) has passed the guard
+    # inside the helper (or the helper returns the guarded expression itself).
+    _CLASS = (('const(1)', {'true'}), ('const(0)', {'false'}), ('const(true)', {'true'}), ('const(false)', {'false'}),
+              ('Result::Ok(', {'Ok', 'pass'}), ('Result::Err(', {'Err', 'fail'}), ('Option::Some(', {'Some', 'pass'}),
+              ('Option::None', {'None', 'fail'}))
+
+    def _helper_pass_labels(self, body, o, depth=0):
+        from .tables import enumerate_paths, describe
+        facts = getattr(body, 'facts', None)
+        if facts is None or depth > 1:
+            return None
+        oc = o
+        for _ in range(12):
+            if oc is None:
+                return None
+            if oc.kind in ('ref', 'cast'):
+                oc = oc.base
+            elif oc.kind == 'place' and all(p == '*' or p.startswith('@') or p == '.0' for p in oc.proj):
+                oc = oc.base
+            else:
+                break
+        if oc is None or oc.kind != 'call':
+            return None
+        nm = norm(oc.callee)
+        if nm.split('::')[0] in ('std', 'core', 'alloc', 'rpki', 'bytes', 'chrono', 'tokio', 'hyper', 'log'):
+            return None
+        hbs = facts.find(nm)
+        if len(hbs) != 1 or hbs[0].nid == body.nid:
+            return None
+        hb = hbs[0]
+        if len(hb.blocks) > 80:
+            return None
+        h_edges, h_sws = self._edges(hb, depth + 1)
+        pass_set = set(h_edges)
+        if not h_sws and len(hb.switches()) > 0:
+            # the helper branches, but never on this guard: it cannot stand for it
+            return None
+        try:
+            paths = enumerate_paths(hb, facts, max_paths=400)
+        except Exception:
+            return None
+        if not paths:
+            return None
+        by_class = {}
+        for p in paths:
+            if p.kind != 'return':
+                continue
+            oc_desc = p.outcome or ''
+            cls = None
+            for pref, labs in self._CLASS:
+                if oc_desc.startswith(pref):
+                    cls = frozenset(labs)
+                    break
+            if cls is None:
+                # the helper returns the guarded expression itself
+                direct = self._direct(oc_desc)
+                if direct is not None:
+                    by_class.setdefault(frozenset(direct), []).append(True)
+                    other = {'true', 'false'} - set(direct)
+                    by_class.setdefault(frozenset(other), []).append(False)
+                    continue
+                return None
+            blocks = p.blocks
+            passed = any((blocks[i], blocks[i + 1]) in pass_set for i in range(len(blocks) - 1))
+            by_class.setdefault(cls, []).append(passed)
+        good = set()
+        for cls, flags in by_class.items():
+            if flags and all(flags):
+                good |= set(cls)
+        if not good or (not h_sws and not any(True in f for f in by_class.values())):
+            return None
+        return good
+
+    def _direct(self, desc):
+        """Labels of a bool helper result under which the guard holds, when the helper returns the guarded expression."""
+        m = re.match(r'^(Eq|Ne)\((.*)\)$', desc)
+        if self.cmp is not None and m and all(pt in m.group(2) for pt in self.cmp):
+            eq_wanted = self.cmp_want == {'Equal'}
+            if m.group(1) == 'Eq':
+                return {'true'} if eq_wanted else {'false'}
+            return {'false'} if eq_wanted else {'true'}
+        if self.call is not None:
+            pats = self.call if isinstance(self.call, (list, tuple)) else [self.call]
+            names = [pp[3:].rstrip('$') if pp.startswith('re:') else pp.split('::')[-1] for pp in pats]
+            mm = re.match(r'^call:(Result|Option)::(is_ok|is_some|is_err|is_none)\((.*)\)$', desc)
+            if mm and any(nm2.split('::')[-1] in mm.group(3) for nm2 in names):
+                positive = mm.group(2) in ('is_ok', 'is_some')
+                wants_pos = bool(self.labels & {'Ok', 'Some', 'pass', 'true'})
+                return {'true'} if positive == wants_pos else {'false'}
+            if any(desc.startswith('call:') and nm2.split('::')[-1] in desc.split('(')[0] for nm2 in names) and self.labels <= {'true', 'false'}:
+                return set(self.labels)
+        return None
+
     def edges(self, body):
+        return self._edges(body, 0)
+
+    def _edges(self, body, depth):
+        out, sws = self._edges_direct(body)
+        if depth > 1:
+            return out, sws
+        # helper inlining for switches that did not match directly
+        for sbb in body.switches():
+            if sbb in sws:
+                continue
+            o, edges = body.switch_edges(sbb)
+            if o is None:
+                continue
+            good = self._helper_pass_labels(body, o, depth)
+            if not good:
+                continue
+            sws.append(sbb)
+            for tb, labs in edges.items():
+                if labs and {str(x) for x in labs} <= good:
+                    out.append((sbb, tb))
+        return out, sws
+
+    def _edges_direct(self, body):
         from .tables import order_edges, describe
         out = []
         sws = []
